@@ -87,14 +87,17 @@ class ConcurrentTestSuite(unittest.TestSuite):
                 reader_thread = threading.Thread(
                     target=self._run_test, args=(test, process_result, queue)
                 )
-                threads[test] = reader_thread, process_result
+                # Sub-suites need not be hashable (unittest.TestSuite is not) and
+                # distinct ones may compare equal: key on identity, and keep the
+                # sub-suite in the entry so that its id stays its own.
+                threads[id(test)] = reader_thread, process_result, test
                 reader_thread.start()
             while threads:
                 finished_test = queue.get()
-                threads[finished_test][0].join()
-                del threads[finished_test]
+                threads[id(finished_test)][0].join()
+                del threads[id(finished_test)]
         except:
-            for thread, process_result in threads.values():
+            for thread, process_result, test in threads.values():
                 process_result.stop()
             raise
 
